@@ -172,11 +172,15 @@ def replay_lanczos(rep, light=False, traces=None):
     # one recorded run for TLC (plain operator, no projector: the engine's H is wrapped for logging)
     if traces is not None and not ovs:
         run = case['runs'][-1 if rep.variant % 2 else len(case['runs']) // 2]
-        for conv in (False, True):
-            nc = (2, 3, None)[(rep.variant + conv) % 3]
+        grid = [(conv, (2, 3, None)[(rep.variant + conv) % 3], bool(rep.variant % 2)) for conv in (False, True)]
+        if 'ladder' in rep.origin and sigma == 0:
+            run = case['runs'][-1]
+            grid = [(False, nc_, reo_) for nc_ in (2, 3) for reo_ in (False, True)]
+        for conv, nc, reo_t in grid:
             if run['Nmax'] < 2:
                 nc = 2
-            opts = dict(N_min=2, N_max=run['Nmax'], reortho=bool(rep.variant % 2), cutoff=1.0e-10, P_tol=1.0e-14 if conv else 0.0)
+            opts = dict(N_min=2 if not conv else 2 + 2 * (rep.variant % 2), N_max=run['Nmax'], reortho=reo_t, cutoff=1.0e-10,
+                        P_tol=1.0e-14 if conv else 0.0)
             if nc is not None:
                 opts['N_cache'] = nc
             if sigma:
@@ -190,8 +194,31 @@ def replay_lanczos(rep, light=False, traces=None):
             traces.append((evs, dict(origin=rep.origin, variant=rep.variant, options=opts, engine='LanczosGroundState')))
     if ovs or sigma:
         return
-    # ---- FlatLinearOperator: exact action on the sector
     Av = sum((hk.gi(c['lam']) * hk.bv_flat(c['c']) for c in case['comps']), np.zeros(dim, dtype=complex))
+    # ---- laws of the operator wrappers, on exact data: (A + shift) v and (A1 + A2) v are exact in floating point
+    shift = 3 - 5 * (rep.variant % 2)
+    with warnings.catch_warnings():
+        warnings.simplefilter('ignore')
+        ys = B.arr(sparse.ShiftNpcLinearOperator(B.op(), shift).matvec(B.vec()))
+        dg = np.diag(np.diag(A))
+        ym = B.arr(sparse.SumNpcLinearOperator(B.op(A - dg), B.op(dg)).matvec(B.vec()))
+    rep.count('ShiftNpcLinearOperator', shift)
+    rep.count('SumNpcLinearOperator', 0)
+    if not np.array_equal(ys, Av + shift * v):
+        rep.fail('ShiftNpcLinearOperator', 'matvec', dict(), dict(shift=shift, got=str(ys), expected=str(Av + shift * v)))
+    if not np.array_equal(ym, Av):
+        rep.fail('SumNpcLinearOperator', 'matvec', dict(), dict(got=str(ym), expected=str(Av)))
+    if len(case['comps']) >= 2:
+        # projector onto the complement of a vector that is *not* an eigenvector: P A P v
+        o = hk.bv_flat(case['comps'][0]['c']) + 2 * hk.bv_flat(case['comps'][1]['c'])
+        Po = np.eye(dim, dtype=complex) - np.outer(o, o.conj()) / np.vdot(o, o).real
+        with warnings.catch_warnings():
+            warnings.simplefilter('ignore')
+            yo = B.arr(sparse.OrthogonalNpcLinearOperator(B.op(), [B.vec(o)]).matvec(B.vec()))
+        rep.count('OrthogonalNpcLinearOperator', 0)
+        if rel(yo - Po @ A @ Po @ v) > tol * max(1.0, float(np.linalg.norm(v))):
+            rep.fail('OrthogonalNpcLinearOperator', 'matvec', dict(), dict(got=str(yo), expected=str(Po @ A @ Po @ v)))
+    # ---- FlatLinearOperator: exact action on the sector
     psi0 = B.vec()
     for cf in (None, False):
         try:
@@ -261,7 +288,7 @@ def replay_evo(rep, light=False, traces=None):
                     scale = B.scale * max(1.0, nv) * math.exp(max(0.0, delta.real) * lam_max)
                     tol = TOL * scale * (1 + abs(delta) * lam_max)
                     x = None
-                    for normalize in (False, True):
+                    for normalize in ((False, True) if (light or (dk, t) in (('iq', 1), ('gen', 0))) else (False,)):
                         reused = share and eng is not None             # this engine has already been run
                         classes = dict(engine=name, ncache=cls_nc(nc), exhausted=run['exhausted'], shift=bool(sigma), delta=dk,
                                        herm=herm, reused=reused, reortho=reo, normalize=normalize)
@@ -410,20 +437,23 @@ def replay_gmres(rep, light=False):
     mg = case['mg']
     nb = float(np.linalg.norm(b))
     # option values with N_min <= N_max (N_min defaults to 5)
-    for nmin, nmax in ((0, mg), (0, mg + 2), (None, max(mg + 2, 6))):
+    for nmin, nmax in ((0, mg), (0, mg + 2), (None, max(mg + 2, 6)), (0, mg - 1)):
         if True:
-            if light and nmin == 0 and nmax != mg + 2 * (rep.variant % 2):
+            if light and nmin == 0 and nmax >= mg and nmax != mg + 2 * (rep.variant % 2):
                 continue
             if nmax < 1:
                 continue
             opts = dict(N_max=nmax, res=1.0e-11)
+            exhausted = nmax >= mg
+            if not exhausted:
+                opts['restart'] = 1          # one cycle that ends before the Krylov space is exhausted: residual > 0
             if nmin is not None:
                 opts['N_min'] = nmin
             n_min = 5 if nmin is None else nmin
             # the cycle runs past the exhaustion of the Krylov space (exact breakdown H[k+1,k] = 0) iff it neither may stop
             # there (k = mg - 1 < N_min) nor has to (N_max = mg)
             past = bool(mg - 1 < n_min and mg < nmax)
-            classes = dict(x0=case['x0k'], past_exhaustion=past, herm=case['fl'] == 'herm', real=B.real)
+            classes = dict(x0=case['x0k'], past_exhaustion=past, herm=case['fl'] == 'herm', real=B.real, exhausted=exhausted)
             bv, xv = B.vec(b, dtype=np.complex128), B.vec(x0, dtype=np.complex128)
             with warnings.catch_warnings():
                 warnings.simplefilter('ignore')
@@ -444,7 +474,7 @@ def replay_gmres(rep, light=False):
             if abs(actual - float(np.real(res))) > TOL * max(1.0, actual):
                 rep.fail('GMRES', 'reported-residual', classes, dict(det, actual=actual))
             # the Krylov space of r0 has dimension mg <= N_max: the exact solution is reached in the first cycle
-            if rel(xa - xs) > 1.0e-7 * B.scale * max(1.0, float(np.linalg.norm(xs))):
+            if exhausted and rel(xa - xs) > 1.0e-7 * B.scale * max(1.0, float(np.linalg.norm(xs))):
                 rep.fail('GMRES', 'solution', classes, dict(det, expected=[[float(c.real), float(c.imag)] for c in xs], actual=actual))
 
 
@@ -514,7 +544,7 @@ KINDS = ('lanczos', 'evo', 'arnoldi', 'gmres', 'gs')
 
 
 def run_control_flow(tier):
-    maxn = 6 if tier == 'quick' else 8
+    maxn = 5 if tier == 'quick' else 8
     res, _, d = tlc.mc('Krylov', hk.cf_cfg(maxn), workers=2, max_heap='2g')
     shutil.rmtree(d, ignore_errors=True)
     return maxn, res
@@ -530,18 +560,28 @@ def account_control_flow(ctx, maxn, res):
         raise core.MachineryError('control-flow actions never taken in MC: %s' % missing)
 
 
+# all eigenvalues distinct and reachable: Krylov dimensions 3..8 guaranteed (every branch of the cache machine is recorded)
+LADDER = ('ladder', dict(Kinds={'lanczos', 'evo'}, Flavours={'herm'}, Charges={0}, Sizes={3, 4}, MaxBlocks=2, MaxDim=8,
+                         Perms={'cyc'}, UnitKinds={'gau'}, AVals='<-AValsOne', DMode='ladder'))
+
+
 def mc_cfgs(tier):
     """small catalogues, exhaustive"""
     if tier == 'quick':
         return [('herm', dict(Kinds={'lanczos', 'evo', 'arnoldi', 'gmres'}, Flavours={'herm'}, Charges={0, 1}, Sizes={1, 2},
                               MaxBlocks=2, MaxDim=2)),
                 ('gen', dict(Kinds={'evo', 'arnoldi', 'gmres', 'gs'}, Flavours={'gen'}, Charges={0}, Sizes={1, 2},
-                             MaxBlocks=1, MaxDim=2, MaxGsRows=2))]
+                             MaxBlocks=1, MaxDim=2, MaxGsRows=2)),
+                LADDER]
     return [('herm', dict(Kinds={'lanczos', 'evo', 'arnoldi', 'gmres'}, Flavours={'herm'}, Charges={0, 1}, Sizes={1, 2},
-                          MaxBlocks=2, MaxDim=3, Perms={'id', 'cyc'})),
-            ('gen', dict(Kinds={'evo', 'arnoldi', 'gmres'}, Flavours={'gen'}, Charges={0, 1}, Sizes={1, 2},
-                         MaxBlocks=2, MaxDim=3)),
-            ('gs', dict(Kinds={'gs'}, Flavours={'herm', 'gen'}, Charges={0}, Sizes={2, 3}, MaxBlocks=1, MaxDim=3, MaxGsRows=3))]
+                          MaxBlocks=2, MaxDim=2, Perms={'id', 'cyc'}, UnitKinds={'gau', 'alt'})),
+            ('gen', dict(Kinds={'evo', 'arnoldi', 'gmres', 'gs'}, Flavours={'gen'}, Charges={0, 1}, Sizes={1, 2},
+                         MaxBlocks=2, MaxDim=2, MaxGsRows=2)),
+            ('herm3', dict(Kinds={'lanczos', 'evo'}, Flavours={'herm'}, Charges={0}, Sizes={3}, MaxBlocks=1, MaxDim=3,
+                           Perms={'cyc'}, UnitKinds={'gau'}, AVals='<-AValsSmall')),
+            ('gs3', dict(Kinds={'gs'}, Flavours={'herm'}, Charges={0}, Sizes={3}, MaxBlocks=1, MaxDim=3, MaxGsRows=3,
+                         DVals='<-DValsSmall', AVals='<-AValsSmall')),
+            LADDER]
 
 
 SIM_BIG = dict(Sizes={1, 2, 3, 4}, Charges={0, 1, 2}, MaxBlocks=4, MaxDim=12, DVals='<-DValsBig', GVals='<-GValsBig',
@@ -555,10 +595,10 @@ def sim_cfgs(tier):
     out = []
     # one sector, big blocks: large Krylov dimensions (the rebuild pass of Lanczos needs N > N_cache + 1)
     out.append(('wide', dict(SIM_BIG, Kinds={'lanczos', 'evo'}, Flavours={'herm'}, Charges={0}, Sizes={3, 4}, MaxBlocks=3),
-                60 if q else 1000))
-    out.append(('mixed', dict(SIM_BIG, Kinds=set(KINDS)), 100 if q else 2500))
+                60 if q else 600))
+    out.append(('mixed', dict(SIM_BIG, Kinds=set(KINDS)), 100 if q else 1500))
     if not q:
-        out.append(('dim60', dict(SIM_BIG, Kinds=set(KINDS), MaxBlocks=15, MaxDim=60), 150))
+        out.append(('dim60', dict(SIM_BIG, Kinds=set(KINDS), MaxBlocks=15, MaxDim=60), 100))
     return out
 
 
@@ -704,7 +744,6 @@ def check(ctx):
     cases = gen_cases(ctx, with_cf=(not only or 'cf' in only))
     ctx.notes['wall_gen_s'] = round(time.time() - t0, 1)
     rng = random.Random(ctx.seed)
-    # quick: every MC case once (light options), simulate cases with the full option grid
     traces = []
     nb = 0
     kinds_seen = {}
@@ -715,10 +754,11 @@ def check(ctx):
                 continue
             variant = rng.randrange(24)
             from_sim = origin.startswith('sim')
-            if ctx.tier == 'quick' and not from_sim and rng.random() < 0.5:
+            ladder = origin.startswith('mc-ladder')
+            if ctx.tier == 'quick' and not from_sim and not ladder and rng.random() < 0.6:
                 continue        # quick: a seeded half of the exhaustive catalogue (thorough: all of it)
-            light = (not from_sim) if ctx.tier == 'quick' else False
-            want_trace = from_sim or (j % 7 == ctx.seed % 7)
+            light = not from_sim      # catalogue cases: reduced option grid; simulated cases: the full grid
+            want_trace = from_sim or ladder or (j % 7 == ctx.seed % 7)
             ok = replay_case(ctx, case, origin, variant, light, traces if want_trace else None)
             nb += 1
             kinds_seen[case['kind']] = kinds_seen.get(case['kind'], 0) + 1
